@@ -37,6 +37,12 @@ BASE = {"receive_cer": (True, "CMD_CAPABILITIES_EXCHANGE"), "receive_cea": (Fals
 
 def run(ctx: Ctx):
     model = ctx.model
+    from .common_node import names_resolve
+    names_resolve(ctx, "C08-RN")
+    from .recvmsg import received_messages_reach_dispatch
+    received_messages_reach_dispatch(ctx, "C08-R12", answers=False, requests=True)
+    from .common_node import application_delivery_chain
+    application_delivery_chain(ctx, "C08-R11")
     R = RecvModel(ctx)
     g, at, msg, conn, nc = R.g, R.at, R.msg, R.conn, R.nc
     E = effects_of(model)
